@@ -137,7 +137,7 @@ def template(node, env, nl_attrs=(), depth=0):
                 and len(node.args) == 1:
             sep = fn.value.value
             arg = node.args[0]
-            a2, e2 = resolve(arg, env) if isinstance(arg, (ast.Name, ast.Subscript)) else (arg, env)
+            a2, e2 = resolve(arg, env, lists=True) if isinstance(arg, (ast.Name, ast.Subscript)) else (arg, env)
             if isinstance(a2, ast.Name) and isinstance(e2.get(a2.id), Appended):
                 ap = e2[a2.id]
                 elem = template(ap.value, e2, nl_attrs, depth + 1)
